@@ -539,3 +539,16 @@ def note_tree_groups(tags=None):
                         "(parent earlier / later / equal / none), sequential execution of the real note.c + dll.c with the clock frozen",
                   min_obligations=100, functions=["note_notify_child", "nsync_note_free", "nsync_note_notify", "nsync_note_new", "nsync_note_expiry"])
             for h in ("h_tree_notify_middle", "h_tree_notify_root", "h_tree_free_middle", "h_tree_born_notified")]
+
+
+# ---------------------------------------------------------------- sem_wait.c
+def sem_wait_groups(tags=None):
+    S = ["harness/semwait/sem_wait_all.c", "rg/vp_rg.c", "rg/vp_note.c", "rg/vp_amu.c", "rg/vp_clock.c", "rg/vp_stubs.c", "repo:internal/dll.c",
+         "repo:platform/posix/src/time_rep.c"]
+    return [Group(name="semwait.sem_wait_with_cancel", srcs=S, entry="h_sem_wait", enforce="nsync_sem_wait_with_cancel_",
+                  replace=["nsync_note_notified_deadline_", "nsync_note_notify"], timeout=600, unwind=20, defines=["VP_RG_NOTE", "VP_ABSTRACT_MU", "VP_REAL_SEM"],
+                  object_bits=10, tags=tags, min_obligations=200,
+                  assumed=["timed semaphore wait as a stub: 0, or ETIMEDOUT only once the clock reached the deadline it was given (C12); while the thread sleeps "
+                           "another thread may notify the note (flag set and every waiter removed, under note_mu)",
+                           "contracts of nsync_note_notified_deadline_ / nsync_note_notify as proved in the note groups (restated in harness/semwait/sem_wait_all.c)",
+                           "the note's waiter list holds at most one other record (the function only touches its own record and its neighbours; list behaviour is C17)"])]
